@@ -1,6 +1,51 @@
 package dag
 
-import "strings"
+import (
+	"errors"
+	"strings"
+)
+
+var errNullEntry = errors.New("null entry in a list")
+
+// assertNoNullEntries rejects a definition whose lists of steps, functions
+// or preconditions contain a null entry (e.g. "steps: [~]").
+func assertNoNullEntries(def *definition) error {
+	if hasNullCondition(def.Preconditions) {
+		return errNullEntry
+	}
+	for _, fn := range def.Functions {
+		if fn == nil {
+			return errNullEntry
+		}
+	}
+	for _, step := range def.Steps {
+		if step == nil || hasNullCondition(step.Preconditions) {
+			return errNullEntry
+		}
+	}
+	if h := def.HandlerOn.Exit; h != nil && hasNullCondition(h.Preconditions) {
+		return errNullEntry
+	}
+	if h := def.HandlerOn.Success; h != nil && hasNullCondition(h.Preconditions) {
+		return errNullEntry
+	}
+	if h := def.HandlerOn.Failure; h != nil && hasNullCondition(h.Preconditions) {
+		return errNullEntry
+	}
+	if h := def.HandlerOn.Cancel; h != nil && hasNullCondition(h.Preconditions) {
+		return errNullEntry
+	}
+	return nil
+}
+
+func hasNullCondition(conds []*conditionDef) bool {
+	for _, c := range conds {
+		if c == nil {
+			return true
+		}
+	}
+	return false
+}
 
 // assertFunctions validates the function definitions.
 func assertFunctions(fns []*funcDef) error {
